@@ -342,7 +342,7 @@ def run(a, res):
         table[p] = {"nver": 0}
     sq0 = Squid(a.work, conf=CONF, cache_dirs=[rock])
     try:
-        sq0.start()
+        sq0.start(timeout=150)
         if not wait_rebuilt(sq0, 60):
             res.harness_failure.append("template squid did not finish its initial rebuild")
             return
@@ -407,7 +407,7 @@ def run(a, res):
         outcome = {"rebuilt": False, "started": False}
         try:
             try:
-                sq.start(init=False, extra_args=["-S"] if c["doublecheck"] else [])
+                sq.start(init=False, timeout=150, extra_args=["-S"] if c["doublecheck"] else [])
                 outcome["started"] = True
             except RuntimeError as e:
                 outcome["start_error"] = str(e)[-600:]
